@@ -2,3 +2,5 @@ pub mod c16;
 pub mod c14;
 pub mod c02;
 pub mod c03;
+pub mod c05;
+pub mod c06;
